@@ -97,7 +97,7 @@ def values_equal(I, a, b):
                 s.resolved = o
             return True
         if not isinstance(o, Sym) and isinstance(o, (int, str, bool, Char)):
-            s.neq.append(o)
+            s.exclude(o)
         return False
     if isinstance(a, Adt) and isinstance(b, Adt):
         if a.path == b.path:
@@ -848,7 +848,7 @@ def m_nonzero_new(I, args, fn, expr):
         if c == 0:
             a.resolved = 0
             return none()
-        a.neq.append(0)
+        a.exclude(0)
         return some(a)
     return Sym("NonZero::new(%s)" % _nm(a), expr["ty"] if expr else None)
 
